@@ -7,6 +7,7 @@ with explicit Panic outcomes never reaches one, for every token list.
 Ties: translators (nilgen, gentables); SELECT-core correspondence; implementation-side search under recover: corpus,
 token/byte/structure mutants, exhaustive short token sequences behind statement prefixes, deep nesting probes."""
 import os
+import lexcommon
 import searchcommon
 import verif
 
@@ -30,6 +31,9 @@ def run(rep):
             rep.violation("input", "Parse panics: " + detail[:200], {"input_hex": hx, "detail": detail}, input_hex=hx)
         if res["rc"] != 0:
             broken.append({"obligation": "harness:psearch (a worker died: possible fatal error such as stack exhaustion)", "detail": res["err"]})
+        # lexer half (Properties/C01_lexer.v): tie the lexer model to the current lexer.go; a Go panic is a failing input
+        if lexcommon.lexer_premise(rep, broken, ("panic",)):
+            found = True
         rep.coverage.update({
             "evaluations": res["n"], "distinct_nontrivial": res["n"] - res["counts"].get("err", 0) // 2,
             "rule": "every corpus statement; token/byte/structure mutants of corpus statements (truncate after a token, delete, duplicate, swap, splice from a 230-word pool, drop a bracket partner, empty a range, byte flips); "
